@@ -1,4 +1,5 @@
 import Proofs.Ledger.NodesExamples
+import Proofs.Ledger.NodesGenesis
 /-!
 # C19 — Node staking pool holds exactly the tokens staked by nodes
 
@@ -60,5 +61,38 @@ theorem pool_covers_every_stake (s : State) (hi : Inv s) (a : Addr) (v : Val) (h
     v.tokens ≤ s.pool := hi.tokens_le_pool hv
 
 example : ∃ v, aget Ex.s0.vals Ex.A = some v ∧ v.tokens = 20000000 := by decide
+
+/-- **From genesis.** `InitGenesis` of a genesis file whose validators are all staked (distinct addresses,
+non-negative stakes) yields the invariant, so the pool equation holds after every history of such a chain. -/
+theorem node_pool_inv_from_genesis (p : Params) (vs : List Val) (bal : List (Addr × Int)) (supply0 : Int)
+    (hst : ∀ v ∈ vs, v.status = .staked ∧ 0 ≤ v.tokens) (hnd : (vs.map (·.addr)).Nodup)
+    (ops : List Op) (hops : ∀ op ∈ ops, op.isPoolSend = false) :
+    (run (initGenesis p vs bal supply0) ops).pool = sumBonded (run (initGenesis p vs bal supply0) ops).vals :=
+  (inv_run (inv2_initGenesis p vs bal supply0 hst hnd).inv ops hops).pool
+
+/-- a genesis validator record -/
+def gval (a : Addr) (st : Status) (tok : Int) : Val :=
+  { addr := a, pk := a, jailed := false, status := st, chains := [[0, 1]], url := [], tokens := tok,
+    unstTime := if st = .unstaking then 5000 else zeroTime, output := [], delegators := [] }
+
+example : (initGenesis Ex.p0 [gval Ex.A .staked 20000000, gval Ex.B .staked 30000000] [] 0).pool = 50000000 := by decide
+
+/-- The staked-only hypothesis is needed: `InitGenesis` credits the pool with the tokens of `IsStaked()`
+validators only, so a genesis file with an **unstaking** validator (what `ExportGenesis` writes while unstakes
+are pending) starts with a pool that misses that stake; the node is later paid out of the others' stakes. -/
+theorem genesis_unstaking_breaks_pool :
+    ∃ (p : Params) (vs : List Val), (vs.map (·.addr)).Nodup ∧ (∀ v ∈ vs, 0 ≤ v.tokens ∧ v.status ≠ .unstaked) ∧
+      (initGenesis p vs [] 0).pool ≠ sumBonded (initGenesis p vs [] 0).vals :=
+  ⟨Ex.p0, [gval Ex.A .staked 20000000, gval Ex.B .unstaking 30000000], by decide, by decide, by decide⟩
+
+/-- … with enough other stake in the pool the unstaking genesis node is paid out of it (pool 10 against 40 POKT
+staked afterwards); with too little the payout fails, the record is deleted all the same and the stake is lost -/
+example :
+    let s1 := initGenesis Ex.p0 [gval Ex.A .staked 40000000, gval Ex.B .unstaking 30000000] [] 0
+    let s2 := initGenesis Ex.p0 [gval Ex.A .staked 20000000, gval Ex.B .unstaking 30000000] [] 0
+    (endBlock s1 2 6000).1.pool = 10000000 ∧ balOf (endBlock s1 2 6000).1 Ex.B = 30000000 ∧
+    (endBlock s2 2 6000).1.pool = 20000000 ∧ balOf (endBlock s2 2 6000).1 Ex.B = 0 ∧
+    aget (endBlock s2 2 6000).1.vals Ex.B = none ∧
+    (endBlock s2 2 6000).1.log = [.payout Ex.B Ex.B 30000000 false, .recordDeleted Ex.B] := by decide
 
 end C19
